@@ -54,9 +54,19 @@ pub fn toggle_of(comment: &str) -> Option<bool> {
 /// When conditional directives and `asm` both occur, everything after the first `asm` is
 /// treated as possibly verbatim (a directive branch can hide the closing `end` from the scanner).
 pub fn verbatim_mask(text: &str, toks: &[Tok]) -> Vec<bool> {
+    verbatim_mask_opt(text, toks, true)
+}
+
+/// only the tokens that are certainly kept verbatim (without the "asm plus conditional directives"
+/// over-approximation): for oracles that demand an exact text of verbatim tokens
+pub fn verbatim_mask_definite(text: &str, toks: &[Tok]) -> Vec<bool> {
+    verbatim_mask_opt(text, toks, false)
+}
+
+fn verbatim_mask_opt(text: &str, toks: &[Tok], superset: bool) -> Vec<bool> {
     let mut mask = vec![false; toks.len()];
     let mut off = false;
-    let has_cond = toks.iter().any(|t| matches!(t.kind, Kind::Conditional(_)));
+    let has_cond = superset && toks.iter().any(|t| matches!(t.kind, Kind::Conditional(_)));
     let mut asm_seen = false;
     for (i, t) in toks.iter().enumerate() {
         let mut on_toggle = false;
